@@ -78,6 +78,7 @@ pub fn par_map<R: Send, F: Fn(usize) -> R + Sync>(n: usize, f: F) -> Vec<R> {
 
 thread_local! {
     static LAST_PANIC: RefCell<Option<(String, String)>> = const { RefCell::new(None) };
+    static CATCH_DEPTH: RefCell<u32> = const { RefCell::new(0) };
 }
 
 /// Installs a silent panic hook that records (location, message) per thread.
@@ -94,6 +95,10 @@ pub fn install_panic_hook() {
         } else {
             "<non-string panic>".into()
         };
+        // a panic outside `catch` is a bug of the harness itself: say where
+        if CATCH_DEPTH.with(|d| *d.borrow()) == 0 {
+            eprintln!("MACHINERY-ERROR: harness panicked outside catch() at {loc}: {msg}");
+        }
         LAST_PANIC.with(|p| *p.borrow_mut() = Some((loc, msg)));
     }));
 }
@@ -121,7 +126,10 @@ pub fn normalise_location(loc: &str) -> (String, bool) {
 /// Runs `f`, converting a panic into `Err(Panicked)`. Requires `install_panic_hook`.
 pub fn catch<T>(f: impl FnOnce() -> T) -> Result<T, Panicked> {
     LAST_PANIC.with(|p| *p.borrow_mut() = None);
-    match panic::catch_unwind(AssertUnwindSafe(f)) {
+    CATCH_DEPTH.with(|d| *d.borrow_mut() += 1);
+    let r = panic::catch_unwind(AssertUnwindSafe(f));
+    CATCH_DEPTH.with(|d| *d.borrow_mut() -= 1);
+    match r {
         Ok(v) => Ok(v),
         Err(_) => {
             let (loc, msg) = LAST_PANIC
